@@ -172,7 +172,7 @@ def security_update(chk, pid):
                     chk.ob("C08.R1", ok, fi.module, host, "bidoffer-paid-reset", "the per-date bid/offer accumulator is zeroed only when the date changed",
                            where=w.where, expected="under date != now", found=sym.fmt_guard(w.guard))
         # ---- C01.R5: needupdate typestate
-        if pid in ("C01", "C02") and K == "SecurityBase":
+        if pid in ("C01", "C02", "C17") and K == "SecurityBase":
             nws = S.writes(R.NEEDUPDATE, SELF)
             for w in nws:
                 if canon(w.value) == canon(sym.FALSE):
@@ -528,13 +528,13 @@ def strategy_update(chk, pid):
                 chk.ob("C17.R1", equal(v, exp), CORE, host, "strategy-notional", "a strategy's notional is the sum of the absolute notionals of its children", where=w.where,
                        expected=short(exp, 200), found=short(v, 200), sample={"notional": short(v, 200)})
     # ---- C01.R3b freshness inside update: child update precedes the read of its value
-    if pid in ("C01", "C08"):
+    if pid in ("C01", "C08", "C02"):
         ups = [e for e in S.calls("update") if e.recv is not None and e.recv[0] == "elem"]
         chk.need(ups, "%s no longer updates its children" % host)
         for u in ups:
             ok = len(u.args) >= 1 and canon(u.args[0]) == canon(DATE)
             chk.ob("C01.R3b", ok, CORE, host, "child-update-date", "children are updated to the same date", where=u.where, found=short(u.args[0]) if u.args else "no date")
-            if pid == "C08" and len(u.args) >= 3:
+            if pid in ("C08", "C02") and len(u.args) >= 3:
                 chk.ob("C08.R4", is_inow(u.args[2]), CORE, host, "child-update-inow", "the row index handed to children is the current one", where=u.where, found=short(u.args[2]))
     # ---- C01.R3 weights
     if pid in ("C01", "C06", "C17"):
@@ -827,6 +827,14 @@ def _bankruptcy(chk, pid, S, fi, host, R, the_val):
             chk.ob("C16.R2", bool(fl), CORE, host, "bankrupt:flatten", "all positions are closed on the bankruptcy date", where=w.where, expected="self.flatten() on the same path")
         others = [w for w in bw if canon(w.value) != canon(sym.TRUE)]
         chk.ob("C16.R1", not others, CORE, host, "bankrupt-not-cleared-in-update", "update never clears the bankruptcy flag (terminal)", where=fi.where)
+    if pid in ("C08", "C01", "C16"):
+        clears = [w for w in S.events if w.kind == "write" and w.field == R.STALE and canon(w.value) == canon(sym.FALSE) and own_event(w, S.fn.qual)]
+        work = [e for e in S.events if e.kind == "call" and e.name in ("update", "flatten", "run") and e.recv is not None]
+        first_work = min([e.seq for e in work] or [10 ** 9])
+        late = [w for w in clears if w.seq > first_work]
+        chk.ob("C08.R2" if pid != "C16" else "C16.R2", not late, CORE, host, "stale-cleared-only-at-entry",
+               "update marks the tree fresh once, before it starts: clearing the flag later would discard the staleness raised by what update itself did (the liquidation of a bankrupt root)",
+               where=late[0].where if late else fi.where, expected="root.stale = False only as the first step", found="%d later clears" % len(late))
     if pid == "C08":
         for c in S.calls("flatten"):
             ok = has_lit(c.guard, fld(SELF, "bankrupt"), False)
@@ -1097,7 +1105,7 @@ def transact_rules(chk, pid):
         late = [r for r in S.raises if r.seq > first_effect and own_event(r, S.fn.qual)]
         chk.ob("C02.R1", not late, CORE, host, "no-partial-trade-on-error", "a refused trade changes nothing: every error is raised before the position, the flags or the parent's cash are touched",
                where=late[0].where if late else fi.where, expected="raise before the first write", found="%d raise sites after the position changed" % len(late))
-    if pid in ("C10", "C02"):
+    if pid in ("C10", "C02", "C18"):
         raises = [e for e in S.raises if has_lit(e.guard, ("isnone", price), False) and has_lit(e.guard, fld(SELF, "_bidoffer_set"), False)]
         ok = bool(raises) and all(any(r.seq < w.seq for r in raises) for w in pw)
         chk.ob("C10.R1", ok, CORE, host, "guard:custom-price-without-bidoffer", "a custom-price trade without bid/offer data must raise before the position changes", where=fi.where)
